@@ -2,7 +2,20 @@
 LOG = []        # ('new', instance, args, kwargs) / lifecycle entries
 
 
+class FixtureFault(Exception):
+    """Raised by a constructor armed to fail once (a load that fails)."""
+
+
+FAIL = {'countdown': None, 'fired': False}
+
+
 def _record(self, args, kwargs):
+    if FAIL['countdown'] is not None:
+        if FAIL['countdown'] == 0:
+            FAIL['countdown'] = None
+            FAIL['fired'] = True
+            raise FixtureFault('constructor failed (injected once)')
+        FAIL['countdown'] -= 1
     self.args, self.kwargs = args, kwargs
     LOG.append(('new', self, args, kwargs))
 
